@@ -106,6 +106,12 @@ CHECKS = {
         note="Trusted base: the token-list / declaration model in the harness; snapshot S for 'rejects without modifying'.",
         ref="2/C16",
     ),
+    "C17": dict(
+        technique="model-based program testing with injected exceptions: Hypothesis-generated programs of nested with-blocks, displays (all value kinds, invalid values), raises, try/except and re-entry of an active tag, interpreted on real tags under a recording base hook next to a model; hook identity checked in a finally at every block exit, children and outermost-hook deliveries compared with the model",
+        text="Seeded generated programs (one program = one shrinkable value); exceptions are injected at generated points (raise statements, invalid displayed values, re-entry). Level: exploration with fault injection over generated exception points.",
+        note="Trusted base: the interpreter/model in the harness; display(v) modelled as a direct sys.displayhook(v) call; single-threaded.",
+        ref="2/C17",
+    ),
 }
 
 PENDING_REASON = "check not built yet in this revision (work in progress; see DESIGN.md section 2 for the planned generator and oracle)"
